@@ -114,8 +114,8 @@ class CatLinearOperator(LinearOperator):
             raise RuntimeError("Slicing a CatLinearOperator with a step is not currently supported!")
 
         cat_size = self.size(self.cat_dim)
-        start_idx = slice_idx.start % cat_size if slice_idx.start is not None else 0
-        stop_idx = slice_idx.stop % cat_size if slice_idx.stop is not None else cat_size
+        # normalise None / negative / over-long bounds the way Python does (`x % cat_size` maps stop == size to 0)
+        start_idx, stop_idx, _ = slice_idx.indices(cat_size)
 
         first_tensor_idx = self.idx_to_tensor_idx[start_idx].item()
         last_tensor_idx = self.idx_to_tensor_idx[stop_idx - 1].item()
@@ -229,7 +229,8 @@ class CatLinearOperator(LinearOperator):
         # If any of the (non-cat_dim) batch indices are ints, make sure that we appropriately update the cat_dim
         updated_cat_dim = self.cat_dim
         if self.cat_dim < -2:
-            batch_indices_below_cat_dim = batch_indices[self.cat_dim + 3 :]
+            # (a positive start: for cat_dim == -3 the negative form `[0:]` would select all batch indices)
+            batch_indices_below_cat_dim = batch_indices[len(batch_indices) + self.cat_dim + 3 :]
             num_collapsed_dims = len(tuple(idx for idx in batch_indices_below_cat_dim if isinstance(idx, int)))
             updated_cat_dim += num_collapsed_dims
 
@@ -286,6 +287,8 @@ class CatLinearOperator(LinearOperator):
             ]
 
         elif isinstance(cat_dim_indices, int):  # Should only happen for cat on batch dim
+            if cat_dim_indices < 0:
+                cat_dim_indices = cat_dim_indices + self.size(self.cat_dim)
             target_tensor = self.idx_to_tensor_idx[cat_dim_indices].item()
             cat_dim_indices = cat_dim_indices - self.cat_dim_cum_sizes[target_tensor]
             indices[self.cat_dim] = cat_dim_indices
@@ -298,7 +301,7 @@ class CatLinearOperator(LinearOperator):
 
         # Process the list
         if len(res_list) == 1:
-            return res_list[0].to(self.output_device)
+            return res_list[0] if self.output_device is None else res_list[0].to(self.output_device)
         else:
             res = self.__class__(*res_list, dim=updated_cat_dim, output_device=self.output_device)
             return res
